@@ -34,6 +34,20 @@ use rustc_middle::ty::{
     self, EarlyBinder, GenericArgKind, GenericArgsRef, Instance, InstanceKind, Ty, TyCtxt, TypingEnv,
 };
 use rustc_span::Span;
+
+#[derive(Default)]
+struct RegionNames(std::collections::BTreeSet<String>);
+
+impl<'tcx> rustc_middle::ty::TypeVisitor<TyCtxt<'tcx>> for RegionNames {
+    fn visit_region(&mut self, r: rustc_middle::ty::Region<'tcx>) {
+        match r.kind() {
+            rustc_middle::ty::ReStatic | rustc_middle::ty::ReErased => {}
+            k => {
+                self.0.insert(format!("{:?}", k));
+            }
+        }
+    }
+}
 use std::collections::{HashMap, HashSet, VecDeque};
 
 struct Cb;
@@ -731,6 +745,20 @@ impl<'tcx> Dumper<'tcx> {
                 "output",
                 J::obj(vec![("ty", J::Int(self.ty(o) as i128)), ("s", J::s(format!("{}", o)))]),
             ));
+            // lifetimes occurring in the inputs / in the output (identity of the region, printed): an output
+            // lifetime that occurs in no input is chosen freely by the caller
+            let mut rin = RegionNames::default();
+            for t in sig.inputs().iter() {
+                use rustc_middle::ty::TypeVisitable;
+                t.visit_with(&mut rin);
+            }
+            let mut rout = RegionNames::default();
+            {
+                use rustc_middle::ty::TypeVisitable;
+                o.visit_with(&mut rout);
+            }
+            v.push(("in_regions", J::Arr(rin.0.iter().map(|s| J::s(s.clone())).collect())));
+            v.push(("out_regions", J::Arr(rout.0.iter().map(|s| J::s(s.clone())).collect())));
             v.push(("vis", J::s(format!("{:?}", tcx.visibility(did)))));
             v.push(("pub", J::Bool(tcx.visibility(did).is_public())));
             if let Some(ld) = did.as_local() {
